@@ -201,6 +201,12 @@ func e2eRun(c *Ctx, seed int64, spec *e2eSpec, dir string) *e2eOutcome {
 		switch m.Kind {
 		case "rewrite": // new content, same size, new mtime
 			w.writeSource(f.Name, randBytes(rng, int64(len(cur.Data))), now)
+		case "rewrite-same-second": // new content, same size, a modification time that differs only below the second
+			t := cur.MTime.Truncate(time.Second).Add(time.Duration(rng.Int63n(int64(time.Second))))
+			if t.Equal(cur.MTime) {
+				t = t.Add(time.Nanosecond)
+			}
+			w.writeSource(f.Name, randBytes(rng, int64(len(cur.Data))), t)
 		case "append":
 			w.writeSource(f.Name, append(append([]byte{}, cur.Data...), randBytes(rng, 1+rng.Int63n(200))...), now)
 		case "touch":
@@ -610,6 +616,32 @@ func mixedDescriptors(o *e2eOutcome, name, hash string, gen int) bool {
 		}
 	}
 	if resumed {
+		// which version was resumed?  (the one the receiver reported a partial of)
+		same := false
+		for _, d := range o.reqs {
+			if d.Class == "partials" && d.Gen == gen {
+				for _, p := range d.Parts {
+					if p.Name == name && p.Hash == hash {
+						same = true
+					}
+				}
+			}
+		}
+		if same {
+			return false // a send size below the file size is what resuming means
+		}
+		// another version was resumed: parts of THIS hash that carry a reduced send
+		// size come from the resumed entry of the other version
+		for _, d := range o.reqs {
+			if d.Class != "data" || d.Gen != gen {
+				continue
+			}
+			for _, p := range d.Parts {
+				if p.Name == name && p.Hash == hash && p.Send > 0 && p.Send < p.Size {
+					return true
+				}
+			}
+		}
 		return false
 	}
 	truth := int64(-1)
@@ -622,21 +654,12 @@ func mixedDescriptors(o *e2eOutcome, name, hash string, gen int) bool {
 	o.w.regMu.Unlock()
 	// what the receiver was told differs from what the part said when the request
 	// began: the hash of a queued part changed between the two
-	told := map[string]string{}
-	for _, e := range o.events {
-		if e.Kind == "recv_part" && e.Name == name {
-			told[fmt.Sprintf("%d/%d/%d", e.Req, e.A, e.B)] = e.S
-		}
-	}
 	for _, d := range o.reqs {
 		if d.Class != "data" || d.Gen != gen {
 			continue
 		}
 		for _, p := range d.Parts {
-			if p.Name != name {
-				continue
-			}
-			if h, ok := told[fmt.Sprintf("%d/%d/%d", d.ID, p.Beg, p.End)]; ok && h != p.Hash && (h == hash || p.Hash == hash) {
+			if p.Name == name && p.Hash0 != "" && (p.Hash == hash || p.Hash0 == hash) {
 				return true
 			}
 		}
@@ -782,7 +805,7 @@ func oracleRelease(o *e2eOutcome, v vfn) {
 				// the receiver told the sender that it holds parts of this version which it
 				// never received: not the name-only-poll pattern, the answer itself was wrong
 				fp = "released-after-receiver-claimed-unseen-parts"
-			} else if otherVersionHeld(o, r.Name, relHash) && !completedAtReceiver(o, r.Name, relHash, lastPositivePoll(o, r.Name, r.VT)) {
+			} else if anyPartSent(o, r.Name, relHash) && otherVersionHeld(o, r.Name, relHash) && !completedAtReceiver(o, r.Name, relHash, lastPositivePoll(o, r.Name, r.VT)) {
 				// known pattern: the released version never became complete at the receiver
 				// (its record was started over by parts of another version arriving in
 				// between, or the sender counted its bytes wrongly), so the receiver never
@@ -807,6 +830,25 @@ func oracleRelease(o *e2eOutcome, v vfn) {
 }
 
 // everTransmitted: did the receiver ever acknowledge every byte of (name, hash)?
+// anyPartSent: the sender put at least one part of (name, hash) into a data request
+func anyPartSent(o *e2eOutcome, name, hash string) bool {
+	for _, q := range o.reqs {
+		if q.Class == "data" {
+			for _, p := range q.Parts {
+				if p.Name == name && p.Hash == hash {
+					return true
+				}
+			}
+		}
+	}
+	for _, e := range o.events {
+		if e.Kind == "recv_part" && e.Name == name && e.S == hash {
+			return true
+		}
+	}
+	return false
+}
+
 func everTransmitted(o *e2eOutcome, name, hash string) bool {
 	var rs []iv
 	var size int64 = -1
